@@ -4,7 +4,16 @@
 package extension
 
 //@ func extension.ToExtensionData {C12,C16}
-//@   opaque -- boundary for the transport hooks: the call is logged; only what the clause below states is assumed
+//@   requires msg != nil
+//@   loop 0 invariant [one-per-usable-extension] $i >= 0 && len(exts) <= $i
+//@   ensures [some-or-error] (err == nil) == (len(result0) >= 1) && (err != nil ==> len(result0) == 0)
+//@ define [knownExtension]: (n) => n == ExtensionIncomingRequest1_1 || n == ExtensionOutgoingBlock1_1 || n == ExtensionDataTransfer1_1
 //@ func extension.GetTransferData {C12,C16}
 //@   reads
-//@   opaque
+//@   requires extendedData != nil
+//@   requires [known-extensions] forall i int :: 0 <= i && i < len(extNames) ==> knownExtension(extNames[i])
+//@       -- configuration validity: only extension names that have a decoder (the three above) are ever configured
+//@   loop 0 invariant [scan] $i >= 0 && never(FromIPLD)
+//@   ensures [absent] never(FromIPLD) ==> result0 == nil && err == nil
+//@   ensures [decoded-by-FromIPLD] calls(FromIPLD) <= 1 && (calls(FromIPLD) == 1 ==> result0 == ret(FromIPLD, 0) && err == ret(FromIPLD, 1))
+//@   ensures [decoders-are-FromIPLD] err == nil && result0 != nil ==> (result0.IsRequest() ? implements(result0, datatransfer.Request) : implements(result0, datatransfer.Response))
